@@ -64,7 +64,82 @@ theorem VOk.set {s : Vec} (h a : Nat) (hs : VOk s) : VOk (s.set h a) := by
   · exact VOk.same rfl rfl rfl hs
   · exact VOk.add h a hs
 
+theorem Vec.remove_ksize (s : Vec) (h : Nat) : (s.remove h).ksize = s.ksize := by
+  unfold Vec.remove
+  simp only []
+  split <;> rfl
+
+theorem Vec.add_ksize (s : Vec) (h a : Nat) : (s.add h a).ksize = s.ksize := by
+  unfold Vec.add
+  split
+  · rfl
+  split
+  · rfl
+  split
+  · exact Vec.remove_ksize s h
+  split
+  · rfl
+  simp only []
+  split
+  · split
+    · rfl
+    · split
+      · split <;> rfl
+      · rfl
+  · rfl
+
+theorem Vec.addMany_ksize (s : Vec) (hs : List Nat) : (s.addMany hs).ksize = s.ksize := by
+  unfold Vec.addMany
+  induction hs generalizing s with
+  | nil => rfl
+  | cons x t ih => exact (ih (s.add x 1)).trans (Vec.add_ksize s x 1)
+
+theorem VOk.addMany {s : Vec} (hs : List Nat) (h : VOk s) : VOk (s.addMany hs) := by
+  unfold Vec.addMany
+  induction hs generalizing s with
+  | nil => exact h
+  | cons x t ih => exact ih (VOk.add x 1 h)
+
+theorem VOk.addManyAbund {s : Vec} (ps : List (Nat × Nat)) (h : VOk s) : VOk (s.addManyAbund ps) := by
+  unfold Vec.addManyAbund
+  induction ps generalizing s with
+  | nil => exact h
+  | cons x t ih => exact ih (VOk.add x.1 x.2 h)
+
+theorem VOk.addFrom {s : Vec} (o : Vec) (h : VOk s) : VOk (s.addFrom o) := VOk.addMany _ h
+
+theorem VOk.removeFrom {s : Vec} (o : Vec) (h : VOk s) : VOk (s.removeFrom o) := VOk.removeMany _ h
+
 theorem VOk.clear (s : Vec) : VOk s.clear := VOk.reset _
+
+theorem VOk.setAbundances {s : Vec} (ps : List (Nat × Nat)) (c : Bool) (h : VOk s) :
+    VOk (s.setAbundances ps c) := by
+  unfold Vec.setAbundances
+  cases c with
+  | true => exact VOk.addManyAbund _ (VOk.clear s)
+  | false => exact VOk.addManyAbund _ h
+
+/-- `downsample_scaled`: the sketch that comes back (the moved one or a new one) is consistent -/
+theorem VOk.downsampleScaled {s t : Vec} (sc : Nat) (hs : VOk s) (h : s.downsampleScaled sc = .ok t) : VOk t := by
+  unfold Vec.downsampleScaled at h
+  simp only [] at h
+  split at h
+  · cases h; exact hs
+  · split at h
+    · cases h
+    · cases h
+      split
+      · exact VOk.addManyAbund _ (VOk.new ..)
+      · exact VOk.addMany _ (VOk.new ..)
+
+theorem VOk.downsampleMaxHash {s t : Vec} (mh : Nat) (hs : VOk s) (h : s.downsampleMaxHash mh = .ok t) : VOk t := by
+  unfold Vec.downsampleMaxHash at h
+  split at h
+  · cases h; exact hs
+  · exact VOk.downsampleScaled _ hs h
+
+/-- `From<KmerMinHashBTree>`: the converted sketch starts with an empty cache -/
+theorem VOk.ofTree (t : Tree) : VOk t.toVec := Or.inl rfl
 
 theorem VOk.merge (s o : Vec) : VOk (s.merge o) := by
   unfold Vec.merge
@@ -120,6 +195,19 @@ theorem Vec.clone_spec {s : Vec} (hs : VOk s) :
     show some s.md5sum.1 = some s.digest
     rw [h.1]
 
+/-- serde round trip of a consistent sketch: the loaded sketch holds the same (ksize, hashes) and their
+    digest as its cache; the serialised source stays consistent -/
+theorem Vec.serde_spec {s : Vec} (hs : VOk s) :
+    s.serde.1.mins = s.mins ∧ s.serde.1.ksize = s.ksize ∧ s.serde.1.md5 = some s.digest
+      ∧ VOk s.serde.1 ∧ VOk s.serde.2 := by
+  have h := Vec.md5sum_spec hs
+  refine ⟨rfl, rfl, ?_, ?_, VOk.md5sum hs⟩
+  · show some s.md5sum.1 = some s.digest
+    rw [h.1]
+  · right
+    show some s.md5sum.1 = some s.digest
+    rw [h.1]
+
 theorem Vec.eq_spec {s o : Vec} (hs : VOk s) (ho : VOk o) :
     (s.eq o).1 = (s.digest == o.digest) ∧ VOk (s.eq o).2.1 ∧ VOk (s.eq o).2.2
       ∧ (s.eq o).2.1.mins = s.mins ∧ (s.eq o).2.2.mins = o.mins := by
@@ -160,6 +248,30 @@ theorem vecOp_ok {t s : Vec} (op : Op) (ht : VOk t) (hs : VOk s) :
   | md5 => exact ⟨VOk.md5sum ht, hs⟩
   | clone => exact ⟨(Vec.clone_spec ht).2.2.2.1, hs⟩
   | copy => exact ⟨(Vec.clone_spec ht).2.2.2.2.1, (Vec.clone_spec ht).2.2.2.1⟩
+  | addMany l => exact ⟨VOk.addMany l ht, hs⟩
+  | addManyAbund l => exact ⟨VOk.addManyAbund l ht, hs⟩
+  | addFrom => exact ⟨VOk.addFrom s ht, hs⟩
+  | removeFrom => exact ⟨VOk.removeFrom s ht, hs⟩
+  | addSeq l e =>
+    simp only [vecOp]
+    split <;> exact ⟨VOk.addMany l ht, hs⟩
+  | setAbundances l c => exact ⟨VOk.setAbundances l c ht, hs⟩
+  | downScaled sc =>
+    simp only [vecOp]
+    split
+    · next t' h => exact ⟨VOk.downsampleScaled sc (Vec.clone_spec ht).2.2.2.1 h, hs⟩
+    · exact ⟨(Vec.clone_spec ht).2.2.2.2.1, hs⟩
+  | downMaxHash mh =>
+    simp only [vecOp]
+    split
+    · next t' h => exact ⟨VOk.downsampleMaxHash mh (Vec.clone_spec ht).2.2.2.1 h, hs⟩
+    · exact ⟨(Vec.clone_spec ht).2.2.2.2.1, hs⟩
+  | downMove sc =>
+    simp only [vecOp]
+    split
+    · next t' h => exact ⟨VOk.downsampleScaled sc ht h, hs⟩
+    · exact ⟨VOk.new .., hs⟩
+  | serde => exact ⟨(Vec.serde_spec ht).2.2.2.1, hs⟩
 
 /-- what an observer op answers: the digest of the contents of the sketch it reports on -/
 theorem vecOp_digest {t s : Vec} (ht : VOk t) :
@@ -184,6 +296,7 @@ theorem VPair.step_ok {p : VPair} (c : Cmd) (h : p.Ok) : (p.step c).1.Ok := by
     | false => exact vecOp_ok op h.1 h.2
     | true => exact ⟨(vecOp_ok op h.2 h.1).2, (vecOp_ok op h.2 h.1).1⟩
   | eq => exact ⟨(Vec.eq_spec h.1 h.2).2.1, (Vec.eq_spec h.1 h.2).2.2.1⟩
+  | eqRev => exact ⟨(Vec.eq_spec h.2 h.1).2.2.1, (Vec.eq_spec h.2 h.1).2.1⟩
 
 theorem VPair.run_ok {p : VPair} (cs : List Cmd) (h : p.Ok) : (p.run cs).Ok := by
   unfold VPair.run
@@ -231,6 +344,61 @@ theorem TOk.add {s : Tree} (h a : Nat) (hs : TOk s) : TOk (s.add h a) := by
   exact TOk.ite hs (TOk.ite hs (TOk.ite hs (TOk.ite (TOk.reset _)
     (TOk.ite (TOk.ite (TOk.reset _) (TOk.insertHash h a hs)) hs))))
 
+theorem Tree.ite_ksize {c : Prop} [Decidable c] {a b : Tree} {k : Nat} (ha : a.ksize = k) (hb : b.ksize = k) :
+    (if c then a else b).ksize = k := by
+  split <;> assumption
+
+theorem Tree.insertHash_ksize (s : Tree) (h a : Nat) : (s.insertHash h a).ksize = s.ksize := by
+  unfold Tree.insertHash
+  simp only []
+  split <;> rfl
+
+theorem Tree.add_ksize (s : Tree) (h a : Nat) : (s.add h a).ksize = s.ksize := by
+  unfold Tree.add
+  exact Tree.ite_ksize rfl (Tree.ite_ksize rfl (Tree.ite_ksize rfl (Tree.ite_ksize rfl
+    (Tree.ite_ksize (Tree.ite_ksize (Tree.insertHash_ksize s h a) (Tree.insertHash_ksize s h a)) rfl))))
+
+theorem Tree.addMany_ksize (s : Tree) (hs : List Nat) : (s.addMany hs).ksize = s.ksize := by
+  unfold Tree.addMany
+  induction hs generalizing s with
+  | nil => rfl
+  | cons x t ih => exact (ih (s.add x 1)).trans (Tree.add_ksize s x 1)
+
+theorem TOk.addMany {s : Tree} (hs : List Nat) (h : TOk s) : TOk (s.addMany hs) := by
+  unfold Tree.addMany
+  induction hs generalizing s with
+  | nil => exact h
+  | cons x t ih => exact ih (TOk.add x 1 h)
+
+theorem TOk.addManyAbund {s : Tree} (ps : List (Nat × Nat)) (h : TOk s) : TOk (s.addManyAbund ps) := by
+  unfold Tree.addManyAbund
+  induction ps generalizing s with
+  | nil => exact h
+  | cons x t ih => exact ih (TOk.add x.1 x.2 h)
+
+theorem TOk.addFrom {s : Tree} (o : Tree) (h : TOk s) : TOk (s.addFrom o) := TOk.addMany _ h
+
+theorem TOk.downsampleScaled {s t : Tree} (sc : Nat) (hs : TOk s) (h : s.downsampleScaled sc = .ok t) : TOk t := by
+  unfold Tree.downsampleScaled at h
+  simp only [] at h
+  split at h
+  · cases h; exact hs
+  · split at h
+    · cases h
+    · cases h
+      split
+      · exact TOk.addManyAbund _ (TOk.new ..)
+      · exact TOk.addMany _ (TOk.new ..)
+
+theorem TOk.downsampleMaxHash {s t : Tree} (mh : Nat) (hs : TOk s) (h : s.downsampleMaxHash mh = .ok t) : TOk t := by
+  unfold Tree.downsampleMaxHash at h
+  split at h
+  · cases h; exact hs
+  · exact TOk.downsampleScaled _ hs h
+
+/-- `From<KmerMinHash>`: the converted sketch starts with an empty cache -/
+theorem TOk.ofVec (v : Vec) : TOk v.toTree := Or.inl rfl
+
 theorem TOk.clear (s : Tree) : TOk s.clear := TOk.reset _
 
 theorem TOk.merge (s o : Tree) : TOk (s.merge o) := TOk.reset _
@@ -276,6 +444,17 @@ theorem Tree.clone_spec {s : Tree} (hs : TOk s) :
     show some s.md5sum.1 = some s.digest
     rw [h.1]
 
+theorem Tree.serde_spec {s : Tree} (hs : TOk s) :
+    s.serde.1.mins = s.mins ∧ s.serde.1.ksize = s.ksize ∧ s.serde.1.md5 = some s.digest
+      ∧ TOk s.serde.1 ∧ TOk s.serde.2 := by
+  have h := Tree.md5sum_spec hs
+  refine ⟨rfl, rfl, ?_, ?_, TOk.md5sum hs⟩
+  · show some s.md5sum.1 = some s.digest
+    rw [h.1]
+  · right
+    show some s.md5sum.1 = some s.digest
+    rw [h.1]
+
 theorem Tree.eq_spec {s o : Tree} (hs : TOk s) (ho : TOk o) :
     (s.eq o).1 = (s.digest == o.digest) ∧ TOk (s.eq o).2.1 ∧ TOk (s.eq o).2.2
       ∧ (s.eq o).2.1.mins = s.mins ∧ (s.eq o).2.2.mins = o.mins := by
@@ -309,6 +488,30 @@ theorem treeOp_ok {t s : Tree} (op : Op) (ht : TOk t) (hs : TOk s) :
   | md5 => exact ⟨TOk.md5sum ht, hs⟩
   | clone => exact ⟨(Tree.clone_spec ht).2.2.2.1, hs⟩
   | copy => exact ⟨(Tree.clone_spec ht).2.2.2.2.1, (Tree.clone_spec ht).2.2.2.1⟩
+  | addMany l => exact ⟨TOk.addMany l ht, hs⟩
+  | addManyAbund l => exact ⟨TOk.addManyAbund l ht, hs⟩
+  | addFrom => exact ⟨TOk.addFrom s ht, hs⟩
+  | removeFrom => exact ⟨ht, hs⟩
+  | addSeq l e =>
+    simp only [treeOp]
+    split <;> exact ⟨TOk.addMany l ht, hs⟩
+  | setAbundances l c => exact ⟨ht, hs⟩
+  | downScaled sc =>
+    simp only [treeOp]
+    split
+    · next t' h => exact ⟨TOk.downsampleScaled sc (Tree.clone_spec ht).2.2.2.1 h, hs⟩
+    · exact ⟨(Tree.clone_spec ht).2.2.2.2.1, hs⟩
+  | downMaxHash mh =>
+    simp only [treeOp]
+    split
+    · next t' h => exact ⟨TOk.downsampleMaxHash mh (Tree.clone_spec ht).2.2.2.1 h, hs⟩
+    · exact ⟨(Tree.clone_spec ht).2.2.2.2.1, hs⟩
+  | downMove sc =>
+    simp only [treeOp]
+    split
+    · next t' h => exact ⟨TOk.downsampleScaled sc ht h, hs⟩
+    · exact ⟨TOk.new .., hs⟩
+  | serde => exact ⟨(Tree.serde_spec ht).2.2.2.1, hs⟩
 
 theorem treeOp_digest {t s : Tree} (ht : TOk t) :
     (treeOp t s .md5).2.2 = .digest t.digest ∧ (treeOp t s .md5).1.mins = t.mins
@@ -332,6 +535,7 @@ theorem TPair.step_ok {p : TPair} (c : Cmd) (h : p.Ok) : (p.step c).1.Ok := by
     | false => exact treeOp_ok op h.1 h.2
     | true => exact ⟨(treeOp_ok op h.2 h.1).2, (treeOp_ok op h.2 h.1).1⟩
   | eq => exact ⟨(Tree.eq_spec h.1 h.2).2.1, (Tree.eq_spec h.1 h.2).2.2.1⟩
+  | eqRev => exact ⟨(Tree.eq_spec h.2 h.1).2.2.1, (Tree.eq_spec h.2 h.1).2.1⟩
 
 theorem TPair.run_ok {p : TPair} (cs : List Cmd) (h : p.Ok) : (p.run cs).Ok := by
   unfold TPair.run
@@ -339,4 +543,96 @@ theorem TPair.run_ok {p : TPair} (cs : List Cmd) (h : p.Ok) : (p.run cs).Ok := b
   | nil => exact h
   | cons c t ih => exact ih (TPair.step_ok c h)
 
+/-! ### the mixed machine (both types and the `From` conversions) -/
+
+def Pair.Ok : Pair → Prop
+  | .v p => p.Ok
+  | .t p => p.Ok
+
+theorem Pair.step_ok {p : Pair} (c : PCmd) (h : p.Ok) : (p.step c).1.Ok := by
+  cases p with
+  | v q =>
+    cases c with
+    | cmd c => exact VPair.step_ok c h
+    | conv => exact ⟨TOk.ofVec _, TOk.ofVec _⟩
+  | t q =>
+    cases c with
+    | cmd c => exact TPair.step_ok c h
+    | conv => exact ⟨VOk.ofTree _, VOk.ofTree _⟩
+
+theorem Pair.run_ok {p : Pair} (cs : List PCmd) (h : p.Ok) : (p.run cs).Ok := by
+  unfold Pair.run
+  induction cs generalizing p with
+  | nil => exact h
+  | cons c t ih => exact ih (Pair.step_ok c h)
+
 end Md5Cache
+
+/-! ### the ksize is part of the digested bytes -/
+namespace Md5
+
+def dval (l : List Nat) (a : Nat) : Nat := l.foldl (fun a d => 10 * a + d) a
+
+theorem digitsAux_val (fuel n : Nat) (acc : List Nat) (h : n < fuel) :
+    dval (digitsAux fuel n acc) 0 = dval acc n := by
+  induction fuel generalizing n acc with
+  | zero => omega
+  | succ f ih =>
+    unfold digitsAux
+    split
+    · simp [dval]
+    · rw [ih (n / 10) (n % 10 :: acc) (by omega)]
+      show dval acc (10 * (n / 10) + n % 10) = dval acc n
+      congr 1; omega
+
+theorem digits_val (n : Nat) : dval (digits n) 0 = n := by
+  unfold digits
+  rw [digitsAux_val _ _ _ (by omega)]
+  rfl
+
+theorem digitsAux_lt (fuel n : Nat) (acc : List Nat) (hacc : ∀ d ∈ acc, d < 10) :
+    ∀ d ∈ digitsAux fuel n acc, d < 10 := by
+  induction fuel generalizing n acc with
+  | zero => unfold digitsAux; exact hacc
+  | succ f ih =>
+    unfold digitsAux
+    split
+    · intro d hd
+      cases hd with
+      | head => assumption
+      | tail _ h => exact hacc d h
+    · apply ih
+      intro d hd
+      cases hd with
+      | head => omega
+      | tail _ h => exact hacc d h
+
+theorem digits_lt (n : Nat) : ∀ d ∈ digits n, d < 10 :=
+  digitsAux_lt _ _ _ (fun _ h => by cases h)
+
+theorem byte_inj {a b : Nat} (ha : a < 10) (hb : b < 10) (h : UInt8.ofNat (48 + a) = UInt8.ofNat (48 + b)) : a = b := by
+  have := congrArg UInt8.toNat h
+  simp [UInt8.toNat_ofNat'] at this
+  omega
+
+theorem map_byte_inj : ∀ {l1 l2 : List Nat}, (∀ d ∈ l1, d < 10) → (∀ d ∈ l2, d < 10) →
+    l1.map (fun d => UInt8.ofNat (48 + d)) = l2.map (fun d => UInt8.ofNat (48 + d)) → l1 = l2
+  | [], [], _, _, _ => rfl
+  | [], _ :: _, _, _, h => by simp at h
+  | _ :: _, [], _, _, h => by simp at h
+  | a :: t1, b :: t2, h1, h2, h => by
+    simp only [List.map_cons, List.cons.injEq] at h
+    have hab := byte_inj (h1 a (List.mem_cons_self ..)) (h2 b (List.mem_cons_self ..)) h.1
+    have ht := map_byte_inj (fun d hd => h1 d (List.mem_cons_of_mem _ hd)) (fun d hd => h2 d (List.mem_cons_of_mem _ hd)) h.2
+    rw [hab, ht]
+
+/-- the ksize is part of what is digested: with the SAME hashes, different ksizes give different
+    preimages -/
+theorem preimage_ksize_inj {k1 k2 : Nat} {mins : List Nat} (h : preimage k1 mins = preimage k2 mins) : k1 = k2 := by
+  unfold preimage preimageDigits at h
+  rw [List.map_append, List.map_append] at h
+  have h' := List.append_cancel_right h
+  have hd := map_byte_inj (digits_lt k1) (digits_lt k2) h'
+  rw [← digits_val k1, ← digits_val k2, hd]
+
+end Md5
